@@ -17,5 +17,6 @@ CONSTANTS
  WaitMul = 1
  WaitAdd = 2
  Panics = 0
+ StaleCap = 0
 INVARIANTS NoViolation QueueMatchesFlags FreeListSound RemIsHeld LocSound ObligQueued GroupsSound
 CHECK_DEADLOCK FALSE
